@@ -104,6 +104,8 @@ func main() {
 		runFiletree(*seed, *hist, *steps, out)
 	case "storage", "proofs", "payments", "plans", "forms", "collateral":
 		runStorage(profile, *seed, *hist, *steps, out)
+	case "det":
+		runDet(*seed, *hist, *steps, out)
 	case "msgs":
 		runMsgs(*seed, *hist, *steps, out)
 	case "notif":
